@@ -1182,10 +1182,16 @@ def check_C10(ctx):
     if len(res) != len(cases):
         raise Infra("langcond returned results for %d of %d configurations" % (len(res), len(cases)))
     nontrivial, ninh_fail, nviol = set(), 0, 0
+    shape_cov = {}     # parameter shape -> {"pre": n, "post": n}: configurations with an INHERITED pre / post block
     for x in cases:
         ev, logs, msg = _cond_expected(x)
         e = x["exp"]
-        shape = json.dumps([x["par"], x["conf"], [s[0] for s in x["sites"]], x["nest"], x["via"]])
+        cov = shape_cov.setdefault(x["ps"], {"pre": 0, "post": 0, "default_impl": 0, "own_impl": 0})
+        inh = [x["sites"][i][0] for i in range(x["ni"]) if x["rel"][i] in ("direct", "indirect")]
+        cov["pre"] += any(k & 4 for k in inh)
+        cov["post"] += any(k & 2 for k in inh)
+        cov["own_impl" if x["impl"] == x["ni"] + 1 else "default_impl"] += 1
+        shape = json.dumps([x["par"], x["conf"], [s[0] for s in x["sites"]], x["nest"], x["via"], x["ps"]])
         if x["ninh"] >= 1:
             nontrivial.add(json.dumps([shape, sorted(map(str, [s[1:] for s in x["sites"]]))]))
             if not e["ok"]:
@@ -1220,14 +1226,19 @@ def check_C10(ctx):
             failing_site = e["msg"][1] if e["msg"] else 0
             sig = {"engine": run["engine"], "kind": kind,
                    "site": (x["rel"][failing_site - 1] if failing_site else "none"),
-                   "impl": "own" if x["impl"] == x["ni"] + 1 else "default", "nest": x["nest"], "via": "iface" if x["via"] else "concrete"}
+                   "impl": "own" if x["impl"] == x["ni"] + 1 else "default", "nest": x["nest"], "via": "iface" if x["via"] else "concrete",
+                   "params": x["ps"], "class": cls}
             ctx.report(sig, "configuration %d on %s: %s\n  expected: ok=%s kind=%s msg=%s events=%s logs=%s ret=%s\n  observed: class=%s kind=%s msg=%s events=%s logs=%s value=%s\n%s"
                        % (x["id"], run["engine"], kind, e["ok"], e["kind"], msg, ev, logs, e["ret"],
                           cls, run.get("ckind"), run.get("msg"), run["events"], run["logs"], run.get("value"), run.get("src", "")),
                        {"case": x, "run": {k: run[k] for k in run if k != "src"}, "source": run.get("src")})
+    for shp in ("none", "res1", "int_res", "res_int_res", "optres"):
+        c = shape_cov.get(shp, {})
+        if not (c.get("pre") and c.get("post") and c.get("default_impl") and c.get("own_impl")):
+            raise Infra("C10: parameter shape %s is not covered with inherited pre, inherited post, default and own implementation: %s" % (shp, c))
     for x in (cases[len(cases) // 5], cases[len(cases) // 2], cases[-7]):
         ev, logs, msg = _cond_expected(x)
-        ctx.add_sample({"interfaces": x["par"], "C_conforms_to": x["conf"], "sites[kind,pre,post,D,R,gpre,gpost,E]": x["sites"],
+        ctx.add_sample({"params": x["ps"], "interfaces": x["par"], "C_conforms_to": x["conf"], "sites[kind,pre,post,D,R,gpre,gpost,E]": x["sites"],
                         "d": x["d"], "r": x["r"], "nest": x["nest"], "via": x["via"],
                         "expected": {"ok": x["exp"]["ok"], "failing": msg, "events": ev, "logs": logs}})
     return ctx.finish({
@@ -1235,12 +1246,15 @@ def check_C10(ctx):
         "traces_validated_against_impl": len(cases) * 2,
         "evaluations": len(cases) * 2, "configurations": len(cases),
         "configurations_failing_with_inherited_condition": ninh_fail,
+        "parameter_shape_coverage": shape_cov,
         "distinct_nontrivial": len(nontrivial),
         "rule": "distinct configurations (interface DAG, conformance list, per-site function shape, truth values of all tests, d/D, r/R) in which "
                 "at least one interface the concrete type conforms to contributes a condition block; each run on interpreter and VM; compared: "
                 "ok / condition error with kind and message, emitted condition events in order, which body ran, counter, returned value",
         "exhaustive": bool(ctx.quick),
     }, assumptions=["struct interfaces and a struct implementation; conditions read a flag array, a counter reference (before) and result",
+                    "parameter shape of f (no extra / resource first / resource after Int / two resources around an Int / optional resource) is drawn per "
+                    "configuration by the hash; bodies destroy the resources; any outcome other than ok / ConditionError (e.g. an internal error) is a violation",
                     "thorough tier samples configurations by a hash of (VERIF_SEED, configuration)"])
 
 
